@@ -338,6 +338,7 @@ func c19GraphTieCase(c *Ctx, cs *c19Case, plain *syntax.Ast, base *c19Compiled) 
 	case verdict == "":
 		r.hist("graph-tie:equal")
 		r.count("graph\x00"+cs.Src, len(real) > 1)
+		c19GraphTheorems(c, cs, plain, base)
 	case strings.HasPrefix(verdict, "skip:"):
 		r.hist("graph-tie:" + c19FirstLine(verdict))
 	default:
@@ -382,5 +383,97 @@ func c19GraphExtra(c *Ctx, want int) {
 		made++
 		r.hist("graph-extra:" + c19FeatureKey(p.Features))
 		c19GraphTieCase(c, &c19Case{Name: fmt.Sprintf("graph-extra-%d-%d", c.Seed, made), Src: src, Path: path}, plain, base)
+	}
+}
+
+// c19GraphTheorems: instances of the call-graph theorems on one program of the
+// fragment.  For PRNG-chosen inputs (renameInput to a fresh name) and callables
+// (renameCallable to a fresh name): the driver evaluates the decidable
+// hypothesis and the conclusion on the model; when the hypothesis holds, the
+// REAL edit is run (Refactor -> Apply -> Format -> recompile -> MakeCallGraph)
+// and the real graph after the edit must equal the graph the theorem predicts
+// from the model's graph before the edit (`C19.gpred`).
+func c19GraphTheorems(c *Ctx, cs *c19Case, plain *syntax.Ast, base *c19Compiled) {
+	r := c.Res
+	enc, types := c19Encode(plain), c19EncodeTypes(base.Ast)
+	type cand struct{ op, callable, param string }
+	var ins, cals []cand
+	for _, cl := range base.Ast.Callables.List {
+		cals = append(cals, cand{"renameCallable", cl.GetId(), ""})
+		if ps := cl.GetInParams(); ps != nil {
+			for _, p := range ps.List {
+				ins = append(ins, cand{"renameInput", cl.GetId(), p.Id})
+			}
+		}
+	}
+	pick := func(cs []cand, n int) []cand {
+		c.Rng.Shuffle(len(cs), func(i, j int) { cs[i], cs[j] = cs[j], cs[i] })
+		if len(cs) > n {
+			cs = cs[:n]
+		}
+		return cs
+	}
+	n := 2
+	if c.Thorough {
+		n = 6
+	}
+	for _, cd := range append(pick(ins, n), pick(cals, 1)...) {
+		newName := "zz_fresh"
+		if cd.op == "renameCallable" {
+			newName = "ZZ_FRESH"
+		}
+		a := cd.param
+		if a == "" {
+			a = "-"
+		}
+		rep := c.Drv.Ask("C19.gthm", enc, types, cd.op, cd.callable, a, newName)
+		f := map[string]string{}
+		for _, kv := range strings.Fields(rep) {
+			if j := strings.IndexByte(kv, '='); j > 0 {
+				f[kv[:j]] = kv[j+1:]
+			}
+		}
+		r.hist("graph-theorem:" + cd.op + " hyp=" + f["hyp"])
+		e := c19Edit{Op: cd.op, Callable: cd.callable, Param: cd.param, NewName: newName}
+		if rep == "bad-op" || (f["hyp"] == "true" && f["same"] != "true") {
+			r.violate(Violation{Kind: "correspondence", Key: "C19:graph-theorem-instance",
+				What:   "an instance of the call-graph theorem for " + cd.op + " evaluates to false in the model (or could not be evaluated): " + rep,
+				Input:  c19Replay{Program: cs.Src, Edit: e, Note: "found in " + cs.Name},
+				Broken: "Props.C19.rename_input_graph / rename_callable_graph"})
+			continue
+		}
+		r.count("graph-thm\x00"+cs.Src+"\x00"+e.String(), f["hyp"] == "true")
+		if f["hyp"] != "true" || cd.op != "renameInput" {
+			continue
+		}
+		// the theorem's prediction against the real edit and the real graph
+		out, _, _, _, err := c19Apply(cs.Src, cs.Path, e)
+		if err != nil {
+			r.hist("graph-theorem:real-edit-failed")
+			continue
+		}
+		after, err := c19Compile(out, cs.Path)
+		if err != nil || after.Graph == nil {
+			r.violate(Violation{Kind: "property", Key: "C19:graph-theorem:edited-program-does-not-compile",
+				What:  fmt.Sprintf("the hypothesis of rename_input_graph holds but the really edited program does not compile: %v", err),
+				Input: c19Replay{Program: cs.Src, Edit: e, Note: "found in " + cs.Name}, Impl: out})
+			continue
+		}
+		real, odd, err := c19GraphLines(after.Graph)
+		if err != nil || odd != "" {
+			continue
+		}
+		pred := c19ModelGraphLines(c.Drv.Ask("C19.gpred", enc, types, cd.op, cd.callable, a, newName))
+		if strings.Join(real, "\n") != strings.Join(pred, "\n") {
+			r.hist("graph-theorem:prediction-DIFFERENT")
+			r.violate(Violation{Kind: "property", Key: "C19:graph-theorem:real-graph-differs-from-prediction",
+				What:   "after the real edit " + e.String() + " the real call graph is not the graph before with the input key renamed (the conclusion of rename_input_graph, whose hypothesis holds for this program)",
+				Input:  c19Replay{Program: cs.Src, Edit: e, Note: "found in " + cs.Name},
+				Impl:   strings.Join(real, "\n"),
+				Model:  strings.Join(pred, "\n"),
+				Broken: "Props.C19.rename_input_graph on the real code"})
+		} else {
+			r.hist("graph-theorem:prediction-equals-real-graph")
+		}
 	}
 }
